@@ -745,6 +745,11 @@ class SwitchEndian(Unary):
         elif endian in ">!":
             opcode = Opcode.BE
         self.ebpf.append(opcode, dst, 0, 0, calcsize(size) * 8)
+        if size.islower() and calcsize(size) < (8 if long else 4):
+            # the byte swap zero-extends: restore the sign
+            shift = (64 if long else 32) - calcsize(size) * 8
+            regs = self.ebpf.sr if long else self.ebpf.sw
+            regs[dst] = (regs[dst] << shift) >> shift
 
 
 class Sum(Binary):
